@@ -86,7 +86,24 @@ func (r *propRun) execLLVC() int {
 			continue
 		}
 		opts := llvc.Options{Property: def.ID, Spec: sp}
-		rep, err := llvc.Check(mod, u.Entry, opts, solver, runtime.NumCPU(), llvc.CheckOptions{Replay: true, Kinds: def.BPFKinds})
+		// functional kinds are checked together with the safety kinds they silently rest on (every
+		// obligation is assumed by the later ones on its paths); the safety obligations are claimed
+		// under C07 and only guard against vacuity here
+		kinds := def.BPFKinds
+		safetyOnly := map[string]bool{}
+		if kinds != "" {
+			have := map[string]bool{}
+			for _, k := range strings.Split(kinds, ",") {
+				have[strings.TrimSpace(k)] = true
+			}
+			for _, k := range []string{"inbounds", "unwind", "divzero", "helperarg", "unreachable"} {
+				if !have[k] {
+					safetyOnly[k] = true
+					kinds += "," + k
+				}
+			}
+		}
+		rep, err := llvc.Check(mod, u.Entry, opts, solver, runtime.NumCPU(), llvc.CheckOptions{Replay: true, Kinds: kinds})
 		if err != nil {
 			r.broken = append(r.broken, fmt.Sprintf("%s: %v", u.Entry, err))
 			continue
@@ -105,6 +122,14 @@ func (r *propRun) execLLVC() int {
 		}
 		for _, s := range rep.Solved {
 			r.solverTime += s.TimeS
+			if safetyOnly[s.O.Kind] {
+				// a safety obligation of the same program: later obligations on its paths assume it,
+				// so a functional contract proved after a failing one may hold vacuously
+				if s.Status != "unsat" {
+					r.broken = append(r.broken, "the contracts of "+u.Entry+" rest on a safety obligation that does not discharge ("+s.Status+"): "+s.O.ID)
+				}
+				continue
+			}
 			rec := oblRecord{ID: s.O.ID, Kind: s.O.Kind, Func: u.Entry, Pos: s.O.Source, Status: s.Status, Solver: s.Solver, TimeS: s.TimeS}
 			if s.Status == "unsat" {
 				rec.Class = "discharged"
